@@ -181,6 +181,40 @@ func c18Record(i int, raw []byte) Result {
 		}
 		c.Count = len(ps)
 
+		// the declaration chain
+		main := c18Root{Media: "opf", Auth: true, Dir: append([]string{}, c.Base...), File: "content", Spine: []int{}, Hrefs: []c18Href{}}
+		c.Roots = []c18Root{main}
+		if c.Fmt == "epub" {
+			if pr.Ver == 2 && rnd.Intn(3) == 0 {
+				c.Roots = append([]c18Root{{Media: "other", Dir: []string{"alt"}, File: "book", Spine: []int{}, Hrefs: []c18Href{}}}, c.Roots...)
+			}
+			for a := rnd.Intn(3); a > 0; a-- { // further package documents after the default one
+				alt := c18Root{Media: "opf", File: "alt" + strconv.Itoa(a), Spine: []int{}, Hrefs: []c18Href{}}
+				inRoot := rnd.Intn(2) == 0
+				if inRoot {
+					alt.Dir = []string{}
+				} else {
+					alt.Dir = append([]string{}, c.Base...)
+				}
+				for _, j := range rnd.Perm(len(c.Parts)) {
+					p := c.Parts[j]
+					if rnd.Intn(3) == 0 {
+						continue
+					}
+					h := p.Href
+					if inRoot {
+						h.Abs, h.Segs = false, append([]string{}, p.Name.Dir...)
+					}
+					alt.Spine = append(alt.Spine, p.ID)
+					alt.Hrefs = append(alt.Hrefs, h)
+				}
+				c.Roots = append(c.Roots, alt)
+				pr.Chain = "random"
+			}
+		} else if rnd.Intn(2) == 0 {
+			pr.Chain = "infraFirst"
+		}
+		c.Prof = pr
 		path, err := c18WriteCase(&c)
 		if err != nil {
 			panic(err)
@@ -191,7 +225,7 @@ func c18Record(i int, raw []byte) Result {
 		if base == nil {
 			base = []string{}
 		}
-		pkg := Event{"event": "Pkg", "fmt": c.Fmt, "base": base, "parts": c.Parts, "prof": c.Prof}
+		pkg := Event{"event": "Pkg", "fmt": c.Fmt, "base": base, "parts": c.Parts, "roots": c.Roots, "prof": c.Prof}
 		if m := c18Check(&c, obs); m != nil {
 			pkg["hint"] = c.Fmt + ":" + m.Symptom
 		}
